@@ -38,7 +38,10 @@ Well(g) == [i \in DOMAIN g |-> IF RLt(RAbs(g[i]), RTwo) THEN FromInt(-2) ELSE RZ
 Tilt(g) == [i \in DOMAIN g |-> RAdd(RMul(R(1, 2), RMul(g[i], g[i])), RMul(R(1, 4), g[i]))]
 PGrids == {UGrid(21, 5), UGrid(25, 6)} \cup (IF Thorough THEN {UGrid(31, 6), UGrid(41, 8)} ELSE {})
 Shifts == {ROne, R(-5, 2)} \cup (IF Thorough THEN {FromInt(10)} ELSE {})
+\* a potential need not span its grid: a well on a sub-window, or no potential at all (s = e = 0)
 PotCases(g) == {[op |-> "ExPotential", pts |-> g, vals |-> v, shift |-> c] : v \in {Harm(g), Well(g), Tilt(g)}, c \in Shifts}
+               \cup {[op |-> "ExPotentialWin", pts |-> g, s |-> w[1], e |-> w[2], depth |-> FromInt(-2), shift |-> c] :
+                       w \in {<<0, 0>>, <<Len(g) \div 3, 2 * (Len(g) \div 3)>>, <<0, Len(g) \div 2>>, <<0, Len(g)>>}, c \in Shifts}
 
 Init == \/ \E g \in DGrids : st = [ph |-> 0, kind |-> "d", g |-> g]
         \/ \E g \in PGrids : st = [ph |-> 0, kind |-> "p", g |-> g]
@@ -56,5 +59,6 @@ Admissible == st.ph = 1 =>
                                   /\ Len(st.c.D) = Len(st.c.pts) - 1 /\ RGt(st.c.scale, RZero)
                                   /\ \A i \in 1..(Len(st.c.pts) - 1) : RLt(st.c.pts[i], st.c.pts[i + 1])
     [] st.c.op = "ExPotential" -> Len(st.c.pts) >= 21 /\ Len(st.c.vals) = Len(st.c.pts)
+    [] st.c.op = "ExPotentialWin" -> Len(st.c.pts) >= 21 /\ ((st.c.s = 0 /\ st.c.e = 0) \/ (st.c.s < st.c.e /\ st.c.e <= Len(st.c.pts)))
     [] OTHER -> TRUE
 =============================================================================
